@@ -62,6 +62,9 @@ CHECKS = {
  "C14": ("deterministic simulation of the real sync client over a SimNet stream with seeded stream faults (duplicate vertex, duplicate transaction, unknown parent, second self-sealed, empty transaction, cut), source ledgers of 0-130 vertices incl. multi-tip, truncated and still-busy sources",
          "Clean streams: the joiner's vertices, parent links, index, genesis wallet and balances (tip by tip) must equal the peer's, and an identical follow-up gossip sequence (valid children, duplicates, overdrawing tips and their children, children of old tips) must be accepted and rejected alike by both. Corrupted streams: the joiner must stay unloaded and refuse proposals. Sync from a truncated peer is a recorded known finding.",
          "differentials are judged only when the makers went quiet; a source that moved during the stream is compared only if the joiner caught up", "5 C14"),
+ "C18": ("deterministic simulation in a -race build: seeded concurrent workload over a loaded node's API and background loops, interleaved by the slot scheduler (task switches are fake-clock sleeps, which create no happens-before edge); oracle = Go race detector reports whose access sites lie in the repository",
+         "2-4 proposers, gossip adds (valid, orphan, invalid), readers, a DAG stream consumer that sometimes abandons the stream, truncation and orphan retries run concurrently against one loaded node while its real retry ticker and truncation loop run; the seed decides the interleaving at every instrumented point. Each distinct unordered pair of repository access sites reported by the race detector is a violation with the seed as replay; reports with a site in the harness or the hook files are the machinery's own and are excluded (counted).",
+         "inherits the race detector's limits: only races on executed schedules are reported; dependencies are not instrumented by the scheduler", "5 C18"),
 }
 
 NOT_YET = {}
